@@ -5,6 +5,11 @@ import json
 CORE_NOTE = "bounded: 2 gated sessions + connector, 2 mailboxes, 3 messages, behaviours of 16-24 free steps then drained; \\Recent not modelled; known deviations F13 (C01) / F14 (C02) are listed in known-findings.json and attributed through the specification's taint sets; schedules restricted to those the update gate can produce"
 CHECKS = {
 
+ "C08": dict(level="model_checking",
+   text="GluonDB.tla is the relational model (mailboxes, flag tables, messages, shared flags, per-mailbox rows with autoincrement counter, message-to-mailbox links, deleted subscriptions, settings) with a transaction layer (BeginWrite, Commit, AbortError, AbortPanic) and one action per method of db.ReadOnly / db.Transaction (40 reads, 29 writes) carrying the expected reply; bounded families are model-checked exhaustively; behaviours (simulation plus directed TLC searches for every (operation, reply class, argument shape) label not yet reached) are executed on the real SQLite client; abstract messages are clone groups of 1, 2, 499, 500, 501, 999, 1000, 1001 or 2001 concrete messages so that any size-dependent behaviour is a divergence; after every operation the reply and - through an independent read-only database/sql connection - the whole relational state are compared; abort points (error after k operations, failing operation, panic) must leave the pre-transaction tables",
+   note="2-3 mailboxes, 3 abstract messages, 2 flags; label coverage measured per run (quick 293 labels, thorough 405); a few argument shapes are outside the domain (duplicate ids in one list, flag strings differing only in case) - listed in the evidence",
+   technique="TLA+ relational model + TLC (exhaustive, simulation, directed search); replay on the real SQLite client with raw-SQL state comparison and clone groups", design="DESIGN.md section 5 C08"),
+
  "C12": dict(level="exploration",
    text="GluonMime.tla (family structure) enumerates (MIME tree, header shape, line-ending mix, boundary class, damage class) classes with the message layout as abstract chunks and the expected BODY/BODYSTRUCTURE tree; laws RangesContiguous, HeaderTextIsAll, FieldsPartition, PartInsideParent, PathsUnique are invariants; pkg/mimegen renders the chunks to bytes; a child-process worker runs imap.NewParsedMessage, rfc822.Parse / Children / Walk / Part and rfc5322.ParseAddressList: on every input no panic / fatal error / hang (generous watchdog), ENVELOPE / BODY / BODYSTRUCTURE must be accepted by a strict IMAP list reader and every section range must lie inside parent and message; for undamaged classes the structure (types, params, sizes, line counts, nested envelopes) and the part ranges must equal the tree; plus seeded instances inside classes (garbage, nesting depth 10/100/200, comment nesting up to 6M, huge lines)",
    note="classes exhaustive within depth <= 3 / node budget; bytes inside a class and the instances are sampled with the seed; one rendering decision pinned by an existing test is a known finding",
